@@ -76,8 +76,17 @@ func newInterp() *interp {
 	def("emits", func(s string) { it.trace = append(it.trace, "s:"+strconv.Quote(s)) })
 	def("emitb", func(b bool) { it.trace = append(it.trace, "b:"+strconv.FormatBool(b)) })
 	it.ir.Eval(`import "fmt"`)
+	if warmStack {
+		// finding corpus:recover-lost-when-call-stack-grows is open: the generated programs avoid its class (a defer / recover
+		// that runs while classic's call stack slice is reallocated) by growing the slice once, before any program runs
+		it.ir.Eval("func warm_stack(k int) int {\n\tif k > 0 {\n\t\treturn warm_stack(k-1) + 1\n\t}\n\treturn 0\n}")
+		it.ir.Eval("warm_stack(200)")
+	}
 	return it
 }
+
+// warmStack: set while the corpus input of finding corpus:recover-lost-when-call-stack-grows still fails (never for the corpus replays)
+var warmStack bool
 
 // runClassic evaluates the declarations and the entry call; a watchdog goroutine reports a hang
 func (it *interp) runClassic(u *unit) (o obs) {
@@ -322,7 +331,9 @@ func main() {
 		"functions (multiple/named results, variadic, recursion, mutual recursion), function values and closures (counters, composition, per-loop variables), pointers and linked nodes, methods, constants and iota, shadowing, "+
 		"switch forms, loops, defer order, defer/recover of explicit and run-time panics, re-panic. Oracle: the same declarations compiled by go1.23 in a `go 1.18` module, all programs of the run in one binary. "+
 		"Observable: trace of emit/emitf/emits/emitb calls + whether a panic escapes. Non-trivial: trace of >= 3 events; distinct by SHA-256 of the source. "+
-		"corpus/C38/*.json (exact inputs of findings) run first; while such an input still fails its snippet class is switched off in the generator.")
+		"corpus/C38/*.json (exact inputs of findings) run first, each in a fresh interpreter; while such an input still fails its snippet class is switched off in the generator "+
+		"(class stack-growth: every interpreter of the generated programs first runs a recursion of depth 200, so no defer/recover runs while the call stack slice is reallocated; "+
+		"class methods-twice: at most one `methods` snippet per program, i.e. no two named types with identical struct types and equal method names).")
 	wd := vh.NewWatchdog(rep, 10*time.Minute) // generous: one beat covers a whole `go build` of an oracle batch, which takes minutes on a loaded machine
 
 	nprog, maxDepth := 220, 5
@@ -386,6 +397,7 @@ func main() {
 	}
 	sort.Strings(skipped)
 	rep.Extra["generator_classes_off"] = skipped
+	warmStack = skip["stack-growth"]
 
 	// ---- generate
 	for i := 0; i < nprog; i++ {
@@ -435,7 +447,8 @@ func main() {
 
 	// ---- classic
 	header := "From Coq Require Import List ZArith.\nFrom Verif Require Import MiniGo.Syntax MiniGo.Sem C38.Model.\nImport ListNotations.\nOpen Scope nat_scope."
-	cw := vh.NewCases(a, header, "case", "mismatches", 40)
+	cw := vh.NewCases(a, header, "case", "mismatches", 32)
+	const maxCoq = 1024 // correspondence cases per run: <= 32 shards of 32 programs (a shard costs 15-40 s of coqc)
 	it := newInterp()
 	ncoq := 0
 	for i, u := range gen {
@@ -480,7 +493,7 @@ func main() {
 				}
 			}
 			// correspondence: what classic did vs the Coq reference semantics
-			if tr, isInt := intTrace(got.Trace); u.mini.Mini && isInt && got.Err == "" && len(tr) >= 4 && len(tr) <= 1500 {
+			if tr, isInt := intTrace(got.Trace); u.mini.Mini && isInt && got.Err == "" && len(tr) >= 4 && len(tr) <= 1500 && ncoq < maxCoq {
 				ncoq++
 				fuel := 600 + u.mini.Nodes + 4*len(tr)
 				cw.Add(fmt.Sprintf("mkCase %d %d %s (N.to_nat %d) %s %s", u.Idx, nres, u.mini.Coq, fuel, coqZs(tr[:len(tr)-4]), coqZs(tr[len(tr)-4:])))
